@@ -18,13 +18,13 @@ type c11Input struct {
 }
 
 var c11Inputs = []c11Input{
-	{"var x = 1\nprint x + 2\n", -1},                  // valid
-	{"print )\nvar x = 1\nprint x\n", -1},             // early syntax error
-	{"var x = 1\nprint x\nprint (\n", -1},             // late syntax error
-	{"print $\nvar x = 1\nprint x + 2\n", 6},          // early lexical failure
-	{"var x = 1\nprint x + 2\nprint $\n", 28},         // late lexical failure
-	{"def t {\n ratio = 1.\n}\nprint 1\n", 18},         // lexical failure inside an open block
-	{"def t {\n def u {\n x = \"a\n}\n}\n", 25},         // unterminated string two blocks deep
+	{"var x = 1\nprint x + 2\n", -1},            // valid
+	{"print )\nvar x = 1\nprint x\n", -1},       // early syntax error
+	{"var x = 1\nprint x\nprint (\n", -1},       // late syntax error
+	{"print $\nvar x = 1\nprint x + 2\n", 6},    // early lexical failure
+	{"var x = 1\nprint x + 2\nprint $\n", 28},   // late lexical failure
+	{"def t {\n ratio = 1.\n}\nprint 1\n", 18},  // lexical failure inside an open block
+	{"def t {\n def u {\n x = \"a\n}\n}\n", 25}, // unterminated string two blocks deep
 	{"print )\nprint )\nprint )\nprint )\nprint )\nprint )\nprint )\nprint )\nprint )\nprint )\nprint )\nprint )\nvar a = 1\nvar b = 2\nprint a + b * 3 - 4 / 5\nprint a\n", -1}, // many syntax errors, then many tokens
 }
 
